@@ -9,6 +9,13 @@
 //! (b) from the pre-commit local store plus the prepared mutations (crash between prepare and
 //! commit) equals the running signer.
 //!
+//! Besides the semantic ("2"-suffixed, LDK-style) messages the RAW-transaction messages that stock
+//! CLN sends are driven: ValidateCommitmentTx, SignRemoteCommitmentTx, SignMutualCloseTx (channel
+//! handler) and SignCommitmentTx (root handler, with its lock_time = 0 mutual-close workaround).
+//! They carry the canonical transaction of the named content plus a PSBT whose outputs hold the
+//! witness scripts / wallet derivation paths, and go through the wire codec (as_vec -> from_vec)
+//! before they reach the handler.
+//!
 //!   hand explore --alphabet FILE --n 3 --out DIR [--threads 16]
 use std::collections::{HashMap, VecDeque};
 use std::sync::{Arc, Condvar, Mutex};
@@ -16,13 +23,15 @@ use std::sync::{Arc, Condvar, Mutex};
 use bitcoin::hashes::Hash;
 use bitcoin::secp256k1::ecdsa::Signature;
 use bitcoin::secp256k1::{PublicKey, SecretKey};
-use bitcoin::{BlockHash, Network};
+use bitcoin::bip32::{ChildNumber, DerivationPath, Fingerprint};
+use bitcoin::{BlockHash, Network, Psbt, ScriptBuf, Transaction};
 use lightning_signer::persist::Persist;
 use serde_json::{json, Value};
 
 use vls_protocol::model::{Bip32KeyVersion, BitcoinSignature, DisclosedSecret, Htlc, PubKey};
-use vls_protocol::msgs::{self, Message};
-use vls_protocol::serde_bolt::Array;
+use vls_protocol::msgs::{self, Message, SerBolt};
+use vls_protocol::psbt::PsbtWrapper;
+use vls_protocol::serde_bolt::{Array, ArrayBE, Octets, WithSize};
 use vls_protocol_signer::approver::PositiveApprover;
 use vls_protocol_signer::handler::{ChannelHandler, Handler, InitHandler, RootHandler};
 use vls_verif_harness::chanlib::*;
@@ -31,9 +40,36 @@ use vls_verif_harness::*;
 struct H {
     ctx: Ctx,
     handlers: HashMap<u32, ChannelHandler>,
+    /// the root handlers the channel handlers were made from (SignCommitmentTx is a root message)
+    roots: HashMap<u32, RootHandler>,
 }
 
-fn negotiate(fx: &NodeFx, version: u32) -> ChannelHandler {
+/// a message as the handler receives it from the wire
+fn wire<T: SerBolt>(m: T) -> Message {
+    msgs::from_vec(m.as_vec()).expect("harness: message does not survive the wire codec")
+}
+
+/// PSBT of an unsigned transaction: output i carries witness script i (if not empty) and wallet
+/// derivation path i (if not empty) - what extract_psbt_witscripts / extract_psbt_output_paths read
+fn psbt_of(tx: &Transaction, wits: &[Vec<u8>], paths: &[DerivationPath]) -> WithSize<PsbtWrapper> {
+    let mut psbt = Psbt::from_unsigned_tx(tx.clone()).expect("harness: unsigned transaction");
+    for (i, o) in psbt.outputs.iter_mut().enumerate() {
+        if let Some(w) = wits.get(i) {
+            if !w.is_empty() {
+                o.witness_script = Some(ScriptBuf::from(w.clone()));
+            }
+        }
+        if let Some(p) = paths.get(i) {
+            if !p.is_empty() {
+                let key = PublicKey::from_slice(&peer_id()).unwrap();
+                o.bip32_derivation.insert(key, (Fingerprint::default(), p.clone()));
+            }
+        }
+    }
+    WithSize(PsbtWrapper { inner: psbt })
+}
+
+fn negotiate(fx: &NodeFx, version: u32) -> (RootHandler, ChannelHandler) {
     let mut init = InitHandler::new(0, fx.node.clone(), Arc::new(PositiveApprover()), version);
     let m = msgs::HsmdInit {
         key_version: Bip32KeyVersion { pubkey_version: 0, privkey_version: 0 },
@@ -48,7 +84,8 @@ fn negotiate(fx: &NodeFx, version: u32) -> ChannelHandler {
     };
     let _ = init.handle(Message::HsmdInit(m)).expect("HsmdInit");
     let root: RootHandler = init.into();
-    root.for_new_client(1, PubKey(peer_id()), 1)
+    let chan = root.for_new_client(1, PubKey(peer_id()), 1);
+    (root, chan)
 }
 
 impl H {
@@ -63,21 +100,26 @@ impl H {
             for (k, s) in b.ctx.sigs.iter() {
                 ctx.sigs.insert(k.clone(), Sigs { commit: s.commit, htlc: s.htlc.clone() });
             }
+            ctx.raw = b.ctx.raw.clone();
         }
         let mut handlers = HashMap::new();
+        let mut roots = HashMap::new();
         for v in [4u32, 5, 6] {
-            let (h, _) = ctx.fx.tx(|| negotiate(&ctx.fx, v));
+            let ((r, h), _) = ctx.fx.tx(|| negotiate(&ctx.fx, v));
             handlers.insert(v, h);
+            roots.insert(v, r);
         }
-        H { ctx, handlers }
+        H { ctx, handlers, roots }
     }
 
     fn rebuild_on(&self, fx: NodeFx) -> H {
         // a restored signer: same channel context, fresh handlers
         let mut handlers = HashMap::new();
+        let mut roots = HashMap::new();
         for v in [4u32, 5, 6] {
-            let (h, _) = fx.tx(|| negotiate(&fx, v));
+            let ((r, h), _) = fx.tx(|| negotiate(&fx, v));
             handlers.insert(v, h);
+            roots.insert(v, r);
         }
         let mut sigs = HashMap::new();
         for (k, s) in self.ctx.sigs.iter() {
@@ -88,15 +130,186 @@ impl H {
             setup: c.setup.clone(),
             counterparty_keys: c.counterparty_keys.clone(),
         });
-        H { ctx: Ctx { fx, id: self.ctx.id.clone(), cc, nmax: self.ctx.nmax, sigs, raw: self.ctx.raw.clone() }, handlers }
+        H { ctx: Ctx { fx, id: self.ctx.id.clone(), cc, nmax: self.ctx.nmax, sigs, raw: self.ctx.raw.clone() }, handlers, roots }
     }
 
-    fn message(&self, r: &Value) -> Option<(u32, Message)> {
+    /// the canonical closing transaction of content c (the funder = holder pays 1000 sat fee), its
+    /// outputs in BIP 69 order, with the wallet derivation path of every output (empty: not ours);
+    /// built as chanlib's "SignMutualCloseRaw" builds it.  `lock_time` 0 is what CLN sends.
+    fn closing_tx(&self, c: &Content) -> Option<(Transaction, Vec<DerivationPath>)> {
+        use bitcoin::{absolute::LockTime, transaction::Version, Amount, Sequence, TxIn, TxOut, Witness};
+        let (script, cp_script, path) = self.close_scripts();
+        let mut outs = vec![(TxOut { value: Amount::from_sat(c.to_holder - 1000), script_pubkey: script }, path)];
+        if c.to_cp > 0 {
+            outs.push((TxOut { value: Amount::from_sat(c.to_cp), script_pubkey: cp_script }, DerivationPath::master()));
+        }
+        outs.sort_by(|a, b| a.0.value.cmp(&b.0.value).then_with(|| a.0.script_pubkey.as_bytes().cmp(b.0.script_pubkey.as_bytes())));
+        let outpoint = self.ctx.cc.as_ref()?.setup.funding_outpoint;
+        let tx = Transaction {
+            version: Version::TWO,
+            lock_time: LockTime::ZERO,
+            input: vec![TxIn { previous_output: outpoint, script_sig: ScriptBuf::new(), sequence: Sequence::MAX, witness: Witness::new() }],
+            output: outs.iter().map(|o| o.0.clone()).collect(),
+        };
+        Some((tx, outs.into_iter().map(|o| o.1).collect()))
+    }
+
+    /// (holder's wallet script at path [1], counterparty's script, the wallet path)
+    fn close_scripts(&self) -> (ScriptBuf, ScriptBuf, DerivationPath) {
+        use lightning_signer::node::SpendType;
+        use lightning_signer::util::test_utils::make_test_funding_wallet_addr;
+        let script = make_test_funding_wallet_addr(&self.ctx.fx.node, 1, SpendType::P2wpkh).script_pubkey();
+        let cp_script = make_test_funding_wallet_addr(&self.ctx.fx.node, 77, SpendType::P2wpkh).script_pubkey();
+        (script, cp_script, vec![ChildNumber::from_normal_idx(1).unwrap()].into())
+    }
+
+    /// the canonical COUNTERPARTY commitment transaction number n at per-commitment point `pt` for
+    /// content c and its output witness scripts, built with LDK (not with the signer's own builder)
+    fn cp_commitment(&self, n: u64, pt: &PublicKey, c: &Content) -> Option<(Transaction, Vec<Vec<u8>>)> {
+        use lightning::ln::chan_utils::{CommitmentTransaction, TxCreationKeys};
+        use lightning::sign::ChannelSigner;
+        use lightning_signer::channel::Channel;
+        use lightning_signer::util::test_utils::build_tx_scripts;
+        self.ctx
+            .fx
+            .node
+            .with_channel(&self.ctx.id, |chan| {
+                let params = chan.make_channel_parameters();
+                let directed = params.as_counterparty_broadcastable();
+                let hpk = chan.keys.pubkeys().clone();
+                let cpk = chan.setup.counterparty_points.clone();
+                let keys = TxCreationKeys::derive_new(
+                    &bitcoin::secp256k1::Secp256k1::new(),
+                    pt,
+                    &cpk.delayed_payment_basepoint,
+                    &cpk.htlc_basepoint,
+                    &hpk.revocation_basepoint,
+                    &hpk.htlc_basepoint,
+                );
+                // the counterparty broadcasts: what the holder received is what the counterparty offers
+                let htlcs = Channel::htlcs_info2_to_oic(&c.received, &c.offered);
+                let mut with_aux: Vec<_> = htlcs.iter().cloned().map(|h| (h, ())).collect();
+                let ctx = CommitmentTransaction::new_with_auxiliary_htlc_data(
+                    INITIAL_COMMITMENT_NUMBER - n,
+                    c.to_cp,
+                    c.to_holder,
+                    cpk.funding_pubkey,
+                    hpk.funding_pubkey,
+                    keys.clone(),
+                    0,
+                    &mut with_aux,
+                    &directed,
+                );
+                let tx = ctx.trust().built_transaction().transaction.clone();
+                let scripts = build_tx_scripts(&keys, c.to_cp, c.to_holder, &htlcs, &directed, &cpk.funding_pubkey, &hpk.funding_pubkey)
+                    .expect("scripts");
+                Ok((tx, scripts.iter().map(|s| s.as_bytes().to_vec()).collect()))
+            })
+            .ok()
+    }
+
+    /// (protocol version of the handler, root handler?, message)
+    fn message(&self, r: &Value) -> Option<(u32, bool, Message)> {
         let op = r["op"].as_str().unwrap();
         let v = r["v"].as_u64().unwrap_or(6) as u32;
         let n = r["n"].as_u64().unwrap_or(0);
         let bsig = |s: &Signature| BitcoinSignature { signature: vls_protocol::model::Signature(s.serialize_compact()), sighash: 1 };
+        // the holder's view: received = added by the counterparty (REMOTE), offered = LOCAL
+        let htlcs_of = |c: &Content| -> Vec<Htlc> {
+            let mut htlcs = vec![];
+            for h in &c.received {
+                htlcs.push(Htlc { side: Htlc::REMOTE, amount: h.value_sat * 1000, payment_hash: vls_protocol::model::Sha256(h.payment_hash.0), ctlv_expiry: h.cltv_expiry });
+            }
+            for h in &c.offered {
+                htlcs.push(Htlc { side: Htlc::LOCAL, amount: h.value_sat * 1000, payment_hash: vls_protocol::model::Sha256(h.payment_hash.0), ctlv_expiry: h.cltv_expiry });
+            }
+            htlcs
+        };
+        let cp_funding = || PubKey(self.ctx.cc.as_ref().map(|cc| cc.setup.counterparty_points.funding_pubkey.serialize()).unwrap_or(peer_id()));
+        let mut root = false;
         let m = match op {
+            // the RAW message of stock CLN: canonical transaction of (n, c), witness scripts in the PSBT outputs
+            "HValidateRaw" => {
+                let cname = r["c"].as_str().unwrap();
+                let kind = r["sig"].as_str().unwrap();
+                let c = content(cname);
+                let s = self
+                    .ctx
+                    .sigs
+                    .get(&(n, cname.to_string(), kind.to_string()))
+                    .or_else(|| self.ctx.sigs.get(&(0, cname.to_string(), "good".to_string())))?;
+                let (tx, wits) = self.ctx.raw.get(&(n, cname.to_string())).or_else(|| self.ctx.raw.get(&(0, cname.to_string())))?;
+                wire(msgs::ValidateCommitmentTx {
+                    tx: WithSize(tx.clone()),
+                    psbt: psbt_of(tx, wits, &[]),
+                    htlcs: Array(htlcs_of(&c)),
+                    commitment_number: n,
+                    feerate: 0,
+                    signature: bsig(&s.commit),
+                    htlc_signatures: Array(s.htlc.iter().map(|x| bsig(x)).collect()),
+                })
+            }
+            "HSignMutualCloseRaw" => {
+                let c = content(r["c"].as_str().unwrap());
+                let (tx, opaths) = self.closing_tx(&c)?;
+                wire(msgs::SignMutualCloseTx { tx: WithSize(tx.clone()), psbt: psbt_of(&tx, &[], &opaths), remote_funding_key: cp_funding() })
+            }
+            "HSignMutualClose" => {
+                let c = content(r["c"].as_str().unwrap());
+                let (script, cp_script, _) = self.close_scripts();
+                wire(msgs::SignMutualCloseTx2 {
+                    to_local_value_sat: c.to_holder - 1000,
+                    to_remote_value_sat: c.to_cp,
+                    local_script: Octets(script.to_bytes()),
+                    remote_script: Octets(if c.to_cp > 0 { cp_script.to_bytes() } else { vec![] }),
+                    local_wallet_path_hint: ArrayBE(vec![1u32]),
+                })
+            }
+            // root-handler message of CLN: lock_time != 0 -> sign_holder_commitment_tx_phase2(n) (everything but
+            // the number is ignored; the canonical commitment transaction of (n, "A") is what is sent) ...
+            "HSignCommitment" => {
+                root = true;
+                let (tx, wits) = self.ctx.raw.get(&(n, "A".to_string())).or_else(|| self.ctx.raw.get(&(0, "A".to_string())))?;
+                assert!(tx.lock_time.to_consensus_u32() != 0);
+                wire(msgs::SignCommitmentTx {
+                    peer_id: PubKey(peer_id()),
+                    dbid: 1,
+                    tx: WithSize(tx.clone()),
+                    psbt: psbt_of(tx, wits, &[]),
+                    remote_funding_key: cp_funding(),
+                    commitment_number: n,
+                })
+            }
+            // ... lock_time = 0 -> the mutual-close workaround: sign_mutual_close_tx
+            "HSignCommitmentClose" => {
+                root = true;
+                let c = content(r["c"].as_str().unwrap());
+                let (tx, opaths) = self.closing_tx(&c)?;
+                wire(msgs::SignCommitmentTx {
+                    peer_id: PubKey(peer_id()),
+                    dbid: 1,
+                    tx: WithSize(tx.clone()),
+                    psbt: psbt_of(&tx, &[], &opaths),
+                    remote_funding_key: cp_funding(),
+                    commitment_number: 0,
+                })
+            }
+            "HSignCpRaw" => {
+                let c = content(r["c"].as_str().unwrap());
+                let pt = tree_point(&tree_of(r["t"].as_str().unwrap()), n);
+                let (tx, wits) = self.cp_commitment(n, &pt, &c)?;
+                // received by the holder = offered by the counterparty: the handler flips the sides itself
+                wire(msgs::SignRemoteCommitmentTx {
+                    tx: WithSize(tx.clone()),
+                    psbt: psbt_of(&tx, &wits, &[]),
+                    remote_funding_key: cp_funding(),
+                    remote_per_commitment_point: PubKey(pt.serialize()),
+                    option_static_remotekey: true,
+                    commitment_number: n,
+                    htlcs: Array(htlcs_of(&c)),
+                    feerate: 0,
+                })
+            }
             "HValidate" => {
                 let cname = r["c"].as_str().unwrap();
                 let kind = r["sig"].as_str().unwrap();
@@ -106,13 +319,7 @@ impl H {
                     .sigs
                     .get(&(n, cname.to_string(), kind.to_string()))
                     .or_else(|| self.ctx.sigs.get(&(0, cname.to_string(), "good".to_string())))?;
-                let mut htlcs = vec![];
-                for h in &c.received {
-                    htlcs.push(Htlc { side: Htlc::REMOTE, amount: h.value_sat * 1000, payment_hash: vls_protocol::model::Sha256(h.payment_hash.0), ctlv_expiry: h.cltv_expiry });
-                }
-                for h in &c.offered {
-                    htlcs.push(Htlc { side: Htlc::LOCAL, amount: h.value_sat * 1000, payment_hash: vls_protocol::model::Sha256(h.payment_hash.0), ctlv_expiry: h.cltv_expiry });
-                }
+                let htlcs = htlcs_of(&c);
                 Message::ValidateCommitmentTx2(msgs::ValidateCommitmentTx2 {
                     commitment_number: n,
                     feerate: 0,
@@ -145,19 +352,18 @@ impl H {
             }
             _ => return None,
         };
-        Some((v, m))
+        Some((v, root, m))
     }
 
     /// vlsd-style handling; returns (resp json, number of prepared mutations, prepared kvvs, local dump before commit)
     fn handle(&self, r: &Value) -> (Value, usize, Vec<(String, u64, Vec<u8>)>, Vec<(String, u64, Vec<u8>)>) {
         let cloud = self.ctx.fx.cloud.as_ref().unwrap();
-        let (v, msg) = match self.message(r) {
+        let (v, root, msg) = match self.message(r) {
             Some(x) => x,
             None => return (json!({"ok": false, "sec": -1, "pt": -1, "flag": -1, "err": "harness: no message"}), 0, vec![], vec![]),
         };
-        let handler = &self.handlers[&v];
         cloud.enter().expect("enter");
-        let res = catch(|| handler.handle(msg));
+        let res = if root { catch(|| self.roots[&v].handle(msg)) } else { catch(|| self.handlers[&v].handle(msg)) };
         let muts = cloud.prepare();
         let prepared: Vec<(String, u64, Vec<u8>)> = muts.clone().into_iter().map(|(k, (ver, val))| (k, ver, val)).collect();
         let local_before = dump_store(&cloud.0);
